@@ -33,7 +33,7 @@ ASSUMPTIONS = [
 ]
 REQUIRED = {'roundtrip.checked': 200, 'expr.finalised': 500, 'census.containers': 1000,
             'branch.mapping': 50, 'branch.set': 50, 'branch.sequence': 50, 'branch.iterable': 50, 'branch.leaf': 50,
-            'path.interface': 20}
+            'path.interface': 20, 'path.interface_unconverted_engine': 10, 'path.stub': 50}
 
 OPTION_SETS = [
     {'yaql.convertTuplesToLists': True, 'yaql.convertSetsToLists': False},
@@ -359,6 +359,10 @@ class Mon:
         base = yq.engine()
         self.engines = [(o, base.copy(o)) for o in OPTION_SETS]
         self.raw = base.copy({'yaql.convertOutputData': False})
+        # YaqlInterface finalises whatever Statement.evaluate leaves, so through that path the engine's own
+        # yaql.convertOutputData switch must not matter
+        self.engines_raw = [(dict(o, **{'yaql.convertOutputData': False}), base.copy(dict(o, **{'yaql.convertOutputData': False})))
+                            for o in OPTION_SETS]
         self.ctx = yaql.create_context()
         self.reach = hooks.Reach()
         self.reach.watch(yutils.convert_output_data, 'convert_output_data', callback=self._branch)
@@ -452,11 +456,13 @@ class Mon:
         except Exception:
             rec.count('expr.raw_evaluation_failed')
             return
-        for opts, eng in self.engines:
+        for opts, eng in (self.engines + self.engines_raw if path == 'interface' else self.engines):
             key = ('expr', text, repr(doc), tuple(sorted(opts.items())), path)
             try:
                 if path == 'interface':
                     rec.count('path.interface')
+                    if opts.get('yaql.convertOutputData') is False:
+                        rec.count('path.interface_unconverted_engine')
                     yi = yaql_interface.YaqlInterface(ctx(), eng)
                     got = yi(text)
                 else:
@@ -475,6 +481,52 @@ class Mon:
                 rec.violation('non-plain-data-in-result:%s' % what.split(':')[0],
                               '%s with %r returns %s at %s (result %r)' % (text, opts, what, where, got),
                               {'kind': 'expr', 'text': text, 'doc': repr(doc), 'path': path})
+
+
+STUB_CALLS = [
+    # (description, lambda yi, doc: value) - function and method stubs of YaqlInterface
+    ('yi.list(gen, tuple)', lambda yi, d: yi.list((x for x in [1, (2, 3)]), (4, {5}))),
+    ('yi.dict([[k, (1, 2)]])', lambda yi, d: yi.dict([['k', (1, 2)], ['s', {1, 2}]])),
+    ('yi.set(1, 2)', lambda yi, d: yi.set(1, 2)),
+    ('yi.on(doc).items()', lambda yi, d: yi.on(d).items()),
+    ('yi.on(doc).keys()', lambda yi, d: yi.on(d).keys()),
+    ('yi.on(doc).values()', lambda yi, d: yi.on(d).values()),
+    ('yi.on([3, 1]).orderBy', lambda yi, d: yi.on([3, 1, 2]).reverse()),
+    ('yi.on([1, 2]).zip([3, 4])', lambda yi, d: yi.on([1, 2]).zip([3, 4])),
+    ('yi.on([1, 2]).toSet()', lambda yi, d: yi.on([1, 2]).toSet()),
+    ('yi.on([[1, 2]]).toDict', lambda yi, d: yi.on([1, 2]).memorize()),
+    ('yi.on(doc).set(k, (1, 2))', lambda yi, d: yi.on(d).set('k', (1, [2, {3}]))),
+    ('yi.range(3)', lambda yi, d: yi.range(3)),
+    ('yi(expr, doc)', lambda yi, d: yi('$1.items().select($)', d)),
+    ('yi(expr, k=doc)', lambda yi, d: yi('[$k.keys(), $k.values(), $k]', k=d)),
+]
+
+
+def stubs(mon, rec):
+    doc = {'a': [1, {'b': 2}], 'c': (3, 4)}
+    for opts, eng in mon.engines + mon.engines_raw:
+        for desc, f in STUB_CALLS:
+            yi = yaql_interface.YaqlInterface(mon.ctx.create_child_context(), eng)
+            rec.count('path.stub')
+            key = ('stub', desc, tuple(sorted(opts.items())))
+            try:
+                got = f(yi, doc)
+            except Exception as e:
+                in_final = any(fs.name == 'convert_output_data' for fs in traceback.extract_tb(e.__traceback__))
+                if not in_final:
+                    rec.count('stub.call_rejected')         # the call itself is not valid: nothing to finalise
+                    continue
+                rec.case(key, nontrivial=True)
+                rec.violation(mon.classify_exc(e), 'YaqlInterface call %s with %r raises %s: %s' % (desc, opts, type(e).__name__, e),
+                              {'kind': 'stub', 'desc': desc})
+                continue
+            rec.case(key, nontrivial=has_container(got))
+            bad = []
+            census(got, opts, '$', rec, bad)
+            for what, where in bad[:3]:
+                rec.violation('non-plain-data-in-result:%s' % what.split(':')[0],
+                              'YaqlInterface call %s with %r returns %s at %s (result %r)' % (desc, opts, what, where, got),
+                              {'kind': 'stub', 'desc': desc})
 
 
 def plan(tier, seed):
@@ -513,6 +565,7 @@ def run_shard(spec, rec):
                 if i % 100 == 0:
                     rec.sample({'kind': 'expr', 'text': text})
         else:
+            stubs(mon, rec)
             for text in FIXED_EXPRS:
                 mon.expression(text, {'a': [1, {'b': 2}], 'c': (3, 4)})
                 mon.expression(text, {'a': [1, {'b': 2}], 'c': (3, 4)}, 'interface')
@@ -530,8 +583,11 @@ def run_shard(spec, rec):
 def replay(data, rec):
     mon = Mon(rec)
     try:
-        doc = eval(data['doc'], {'Gen': Gen, 'View': View, 'frozenset': frozenset, 'set': set})
-        if data['kind'] == 'roundtrip':
+        doc = eval(data.get('doc', 'None'), {'Gen': Gen, 'View': View, 'frozenset': frozenset, 'set': set})
+        if data['kind'] == 'stub':
+            stubs(mon, rec)
+            rec.violations = [v for v in rec.violations if v['replay'].get('desc') == data.get('desc')][:3]
+        elif data['kind'] == 'roundtrip':
             mon.roundtrip(doc, data.get('path', 'statement'))
         else:
             mon.expression(data['text'], doc, data.get('path', 'statement'))
